@@ -28,9 +28,21 @@ type serState struct {
 
 // makeEditedObj parses a drawn document and applies a few drawn edits.
 func makeEditedObj(r *Run, what string, big bool) *simObj {
+	return makeEditedObjSized(r, what, big, false)
+}
+
+// makeEditedObjSized: huge documents produce tapes beyond the serializer's 64 KiB tag/value flush blocks.
+func makeEditedObjSized(r *Run, what string, big, huge bool) *simObj {
 	c := r.C
 	cfg := drawCfg(c, true)
-	doc := genHistDoc(r, cfg.ND, big)
+	var doc []byte
+	if huge {
+		cfg.ND = false
+		doc = GenBulkDoc(c, 150000+c.Intn("hugesz", 350000), []int{FamDenseArrays, FamZeros, FamNumbers, FamStrings, FamMixed, FamWide}).B
+		r.stat("huge_tapes", 1)
+	} else {
+		doc = genHistDoc(r, cfg.ND, big)
+	}
 	o := parseNew(r, doc, cfg, what)
 	if o == nil {
 		return nil
@@ -58,10 +70,12 @@ func RunHistSerial(r *Run) {
 	nobj := 1 + c.Intn("nobj", 3)
 	for i := 0; i < nobj && !r.failed(); i++ {
 		big := c.Intn("serbig", 6) == 5
-		if r.thorough() && c.Intn("serhuge", 40) == 39 {
-			big = true
+		hugeOdds := 200
+		if r.thorough() {
+			hugeOdds = 30
 		}
-		if o := makeEditedObj(r, fmt.Sprintf("obj%d", i), big); o != nil {
+		huge := c.Intn("serhuge", hugeOdds) == 0
+		if o := makeEditedObjSized(r, fmt.Sprintf("obj%d", i), big, huge); o != nil {
 			objs = append(objs, o)
 		}
 	}
